@@ -640,6 +640,12 @@ where
                                 cursor = re_chars.next().map(|(step2_pos, step2)| {
                                     (step1_pos, &re_str[step2_pos..], step2_pos, step2)
                                 });
+                                if cursor.is_none() {
+                                    // A lone backslash ends the text: nothing more to unescape,
+                                    // copy over the trailing string (the regex engine will refuse
+                                    // the dangling backslash).
+                                    unescaped.push_str(&re_str[last_pos..]);
+                                }
                                 continue 'outer;
                             }
                         } else {
